@@ -469,7 +469,9 @@ def drive (lines : List String) : IO UInt32 := do
   let evs := body.filterMap (fun l => (parseLine l).bind (fun r => (ofRaw r).join))
   let mon := match monitor count evs with
     | some m => some m
-    | none => stuck count rounds (finalState M M.init evs)
+    | none =>
+      -- the end-of-log oracle is meaningful only for a log the model followed to the end
+      if v.2.isSome then none else stuck count rounds (finalState M M.init evs)
   report "Barrier" v mon
 
 end LibfiberVerif.Barrier
